@@ -231,6 +231,9 @@ def run(ctx, params):
         if i % 499 == 0:
             ctx.sample({"origin": "planted", "plants": log, "nodes": len(treegen.all_nodes(t)), "root": t.name})
         emlkit.discard(t)
+    for label, t in anytrees.allowed_unknown_cases(gen):
+        judge(ctx, t, "allowed-but-unknown child " + label)
+        emlkit.discard(t)
     for i in range(params["freeform"]):
         t = anytrees.freeform(rng, gen, rng.choice([2, 5, 10, 30, 80]))
         if rng.random() < 0.3:
